@@ -102,6 +102,8 @@ def case_text(b):
         return "%s%s classes %s" % (c["fn"], c["types"], c["classes"])
     if c["k"] == "jump":
         return "%s %s in a %s subroutine called from vcl_%s" % (c["jstmt"], c["nest"], c["callkind"], c["scope"])
+    if c["k"] == "esi":
+        return "esi document %s" % " ".join(c["doc"])
     if c["k"] == "vars":
         return "read %s in vcl_%s after path %s" % (c["name"], c["scope"], c["path"])
     if c["k"] == "bigcalls":
@@ -109,7 +111,7 @@ def case_text(b):
     if c["k"] == "initerr":
         return "init-error program %s x %d requests on one instance" % (c["class"], c["nreq"])
     if c["k"] == "director":
-        return "director %s weight=%s quorum=%s retries=%s" % (c["dtype"], c["weight"], c["quorum"], c["retries"])
+        return "director %s weight=%s quorum=%s retries=%s route=%s" % (c["dtype"], c["weight"], c["quorum"], c["retries"], c.get("route"))
     if c["k"] == "prog":
         return "random program of %d statements" % len(b["prog"]["stmts"])
     if c["k"] == "request":
@@ -164,6 +166,7 @@ def run(ctx):
         ("jump", dict(common, cfg="Total_jump.cfg", tag="jump")),
         ("bigcalls", dict(common, cfg="Total_bigcalls.cfg", tag="bigcalls")),
         ("vars", dict(common, cfg="Total_vars.cfg", tag="vars")),
+        ("esi", dict(common, cfg="Total_esi.cfg", tag="esi", defines={"MaxReq": "2" if quick else "3"})),
         ("initerr", dict(common, cfg="Total_initerr.cfg", tag="initerr")),
         ("director", dict(common, cfg="Total_director.cfg", tag="director")),
         ("lifecycle", dict(module="LifecycleTotal", cfg="LifecycleTotal.cfg", workers=2, timeout=1500, tag="lifecycle",
@@ -194,7 +197,7 @@ def run(ctx):
 
     cases = []
     for name, pre in (("assign", "a"), ("builtin", "b"), ("calls", "c"), ("include", "i"), ("request", "r"), ("jump", "j"),
-                      ("initerr", "e"), ("director", "d"), ("bigcalls", "g"), ("vars", "v")):
+                      ("initerr", "e"), ("director", "d"), ("bigcalls", "g"), ("vars", "v"), ("esi", "x")):
         cases += load_cases([res[name].beh_path], pre)
     # lifecycle behaviours are wrapped into the case format
     import itertools
@@ -281,6 +284,9 @@ def classify(ctx, cases, results):
             pred = b.get("predict", "any")
             if pred != "any" and pred != out:
                 rec["drift"] = [{"obs": "outcome-kind", "case": case_text(b), "predicted": pred, "got": out, "msg": (r.get("msg") or "")[:160]}]
+                drifts += rec["drift"]
+            elif c["k"] == "esi" and r.get("per_req"):
+                rec["drift"] = [{"obs": "esi-body", "case": case_text(b), "predicted": "", "got": r["per_req"][:200], "msg": ""}]
                 drifts += rec["drift"]
             elif c["k"] == "lifecycle" and b.get("per_req") and r.get("per_req") != b["per_req"]:
                 rec["drift"] = [{"obs": "per-request-outcome", "predicted": b["per_req"], "got": r.get("per_req")}]
